@@ -32,7 +32,7 @@ import ast
 import copy
 from typing import Dict, List, Optional, Tuple
 
-from .lib import clone_ast, own_nodes
+from .lib import _Subst, clone_ast, own_nodes
 from .model import FuncInfo, Model
 
 
@@ -1340,6 +1340,39 @@ def _unroll(model: Model, fi: FuncInfo) -> FuncInfo:
             i += 1
         return out_, ch_
 
+    # x = next((v for k, v in TABLE if test), D); if x is D: <leave>; return E(x)   is the finder loop
+    # `for k, v in TABLE: if test: return E(v)` followed by <leave>
+    for i_ in range(len(body) - 2):
+        a_, t_, r_ = body[i_], body[i_ + 1], body[i_ + 2]
+        if not (isinstance(a_, ast.Assign) and len(a_.targets) == 1 and isinstance(a_.targets[0], ast.Name) and isinstance(t_, ast.If) and not t_.orelse and isinstance(r_, ast.Return) and r_.value is not None and i_ + 3 == len(body)):
+            continue
+        v_ = a_.value
+        x_ = a_.targets[0].id
+        if not (isinstance(v_, ast.Call) and isinstance(v_.func, ast.Name) and v_.func.id == "next" and len(v_.args) == 2 and not v_.keywords and isinstance(v_.args[0], ast.GeneratorExp) and len(v_.args[0].generators) == 1 and v_.args[0].generators[0].ifs and isinstance(v_.args[1], (ast.Name, ast.Constant))):
+            continue
+        tt_ = t_.test
+        is_d = isinstance(tt_, ast.Compare) and len(tt_.ops) == 1 and isinstance(tt_.ops[0], ast.Is) and isinstance(tt_.left, ast.Name) and tt_.left.id == x_ and ast.dump(tt_.comparators[0]) == ast.dump(v_.args[1])
+        leaves = bool(t_.body) and isinstance(t_.body[-1], (ast.Return, ast.Raise))
+        uses_x = [n_ for st2 in body for n_ in ast.walk(st2) if isinstance(n_, ast.Name) and n_.id == x_]
+        in_ret = [n_ for n_ in ast.walk(r_) if isinstance(n_, ast.Name) and n_.id == x_]
+        g_ = v_.args[0].generators[0]
+        tn_ = {n_.id for n_ in ast.walk(g_.target) if isinstance(n_, ast.Name)}
+        others_ = {n_.id for o_ in body if o_ is not a_ for n_ in ast.walk(o_) if isinstance(n_, ast.Name)} | set(fi.params)
+        if not (is_d and leaves and len(uses_x) == 2 + len(in_ret) and tn_ and not (tn_ & others_)):
+            continue
+        test_ = g_.ifs[0] if len(g_.ifs) == 1 else ast.BoolOp(op=ast.And(), values=[clone_ast(j_) for j_ in g_.ifs])
+        ret_ = _Subst({x_: clone_ast(v_.args[0].elt)}).visit(clone_ast(r_))
+        inner_ = ast.If(test=clone_ast(test_), body=[ret_], orelse=[])
+        loop_ = ast.For(target=clone_ast(g_.target), iter=clone_ast(g_.iter), body=[inner_], orelse=[], type_comment=None)
+        for n_ in ast.walk(loop_.target):
+            if isinstance(n_, ast.Name):
+                n_.ctx = ast.Store()
+        ast.copy_location(loop_, a_)
+        ast.fix_missing_locations(loop_)
+        loop_._fresh = True  # type: ignore
+        body = body[:i_] + [loop_] + list(t_.body)
+        changed = True
+        break
     # return next((v for k, v in TABLE if test), default) is the finder loop `for k, v in TABLE: if test: return v` followed
     # by `return default`
     nb_: List[ast.stmt] = []
